@@ -1980,10 +1980,11 @@ class unyt_array(np.ndarray):
                         else:
                             raise UnitOperationError(ufunc, u0, u1)
                     conv, offset = u1.get_conversion_factor(u0, inp1.dtype)
-                    new_dtype = np.dtype(
-                        ("c" if inp1.dtype.kind == "c" else "f")
-                        + str(inp1.dtype.itemsize)
-                    )
+                    if inp1.dtype.kind == "c":
+                        new_dtype = inp1.dtype
+                    else:
+                        # there is no 8-bit float: same rule as in_units
+                        new_dtype = np.dtype("f" + str(max(2, inp1.dtype.itemsize)))
                     conv = new_dtype.type(conv)
                     if (
                         offset is not None
